@@ -21,8 +21,15 @@ PERMITTED = (re.compile(r"(offset of \S+ does not match WGSL|size of \S+ does no
              re.compile(r"derive\(Pod\) was applied to a type with padding"))
 
 
-def permitted(d):
+def permitted(d, case=None):
     msg = d.get("message") or ""
+    m = re.search(r"(?:offset of (\S+?)\.\S+|size of (\S+)) does not match WGSL", msg)
+    if m and case is not None and hasattr(case.spec, "host_structs"):
+        # the deliberate rejection exists for host-shareable structs only: an assertion on any
+        # other struct is the tool inventing a check nobody asked for
+        name = m.group(1) or m.group(2)
+        if name in case.spec.structs and name not in case.spec.host_structs():
+            return None
     if d.get("code") == "E0512" and "transmute" in msg:
         return "pod_padding"
     if PERMITTED[0].search(msg):
@@ -226,7 +233,7 @@ def main(tier, replay, t0):
             continue
         c, x = meta[rel]
         rejected += 1
-        kinds = [permitted(dg) for dg in r["diags"]]
+        kinds = [permitted(dg, c) for dg in r["diags"]]
         if r["diags"] and all(kinds):
             for k_ in set(kinds):
                 perm[k_] += 1
